@@ -732,6 +732,79 @@ def rule_a13(repo):
                 'under a line that states A --> A --> C, and the proof no longer checks in full' % (c.lineno, why), 'logic/tactic.py:%d' % c.lineno)
     return res
 
+def stale_id_rule(repo, rid):
+    """Removing or inserting a line renumbers the lines after it (C13.A3).  A method that walks over several new lines and
+    closes some of them (`replace_id`, `remove_line`) holds their identifiers from *before* the change: (a) the lines are
+    visited from the last to the first (or the walk ends at the first change), so that the identifiers still to be used
+    lie in front of every change; (b) the sequence walked over is not the very list that is being changed; (c) only gaps
+    (`rule == 'sorry'`) are closed - an assumption or the closing step of a block is not a goal, and replacing it by a
+    citation leaves a block that no longer proves its line; (d) after such a walk, identifiers taken from the same
+    sequence are not used again.  conjI on (A --> A) & B lost the goal B; introduction replaced `assume A` by a citation."""
+    res = RuleResult(rid, 'line numbers taken before lines are removed are not used after the removal; only gaps are closed', floor=2)
+    m = repo.module(METHOD)
+    RENUMBER = {'replace_id', 'remove_line', 'add_line_before'}
+    INDEXING = RENUMBER | {'set_line', 'get_proof_item', 'find_goal', 'apply_tactic'}
+    for f in m.all_funcs:
+        loops = [l for l in ast.walk(f.node) if isinstance(l, ast.For) and isinstance(l.target, ast.Name)]
+        if not loops:
+            continue
+        flow = flow_of(f.node)
+        cfg = None
+        for lp in loops:
+            v = lp.target.id
+            calls = [c for st in lp.body for c in ast.walk(st) if isinstance(c, ast.Call) and call_attr(c) in RENUMBER and
+                     any(isinstance(x, ast.Name) and x.id == v for a in c.args for x in ast.walk(a))]
+            if not calls:
+                continue
+            cfg = cfg or cfg_of(f.node)
+            it = lp.iter
+            rev = isinstance(it, ast.Call) and is_name(it.func, 'reversed') and len(it.args) == 1
+            seq = it.args[0] if rev else it
+            problems = []
+            # (a) order
+            head = [n for n in cfg.nodes if n.kind == 'iter' and n.ast is lp]
+            need(head, '%s: loop head not found in the flow graph' % f.qualname)
+            comes_back = any(head[0].id in cfg.reach_from([b for b, _l in cfg.node_for(c).succ]) for c in calls if cfg.node_for(c) is not None)
+            if not rev and comes_back:
+                problems.append('the lines are visited in forward order: after `%s` the identifiers of the following lines are one too high' % src(calls[0], 40))
+            # (b) live list
+            snap = isinstance(seq, ast.Call) and isinstance(seq.func, ast.Name) and seq.func.id in ('list', 'tuple', 'sorted')
+            inl = flow.inline(seq)
+            live = not snap and any(isinstance(x, ast.Attribute) and x.attr == 'subproof' for x in ast.walk(inl))
+            if live:
+                problems.append('`%s` is the list of the block that is being changed (no copy is taken)' % src(seq, 40))
+            # (c) only gaps
+            def gap(e, pol, v=v):
+                cp = compare_parts(e)
+                return bool(cp) and pol and cp[0] is ast.Eq and src(cp[1]) == v + '.rule' and isinstance(cp[2], ast.Constant) and cp[2].value == 'sorry' or \
+                    bool(cp) and not pol and cp[0] is ast.NotEq and src(cp[1]) == v + '.rule' and isinstance(cp[2], ast.Constant) and cp[2].value == 'sorry'
+            edges = cfg.establishing_edges(gap)
+            closing = [c for c in calls if call_attr(c) in ('replace_id', 'remove_line')]
+            for c in closing:
+                n = cfg.node_for(c)
+                if n is not None and (not edges or cfg.path_avoiding(n, skip_edges=edges, start=head[0]) is not None):
+                    problems.append('`%s` is reached for lines that are not gaps (no test `%s.rule == \'sorry\'`)' % (src(c, 40), v))
+                    break
+            # (d) the same sequence walked again afterwards, its identifiers used
+            after = cfg.reach_from([b for b, l in head[0].succ if l == 'done'])
+            for lp2 in loops:
+                if lp2 is lp or not isinstance(lp2.target, ast.Name):
+                    continue
+                h2 = [n for n in cfg.nodes if n.kind == 'iter' and n.ast is lp2]
+                it2 = lp2.iter.args[0] if isinstance(lp2.iter, ast.Call) and is_name(lp2.iter.func, 'reversed') and lp2.iter.args else lp2.iter
+                if h2 and h2[0].id in after and src(it2) == src(seq) and any(
+                        isinstance(c, ast.Call) and call_attr(c) in INDEXING and any(src(a).startswith(lp2.target.id + '.id') for a in c.args)
+                        for st in lp2.body for c in ast.walk(st)):
+                    problems.append('line %d walks over `%s` again and uses the identifiers its elements had before the removals' % (lp2.lineno, src(seq, 40)))
+            res.add('%s :: %s :: closing-walk#%d' % (METHOD, f.qualname, 1 + sum(1 for k in res.instances if (' :: ' + f.qualname + ' :: ') in k.key)), not problems,
+                    'last to first, over a sequence of its own, gaps only' if not problems else '; '.join(problems) +
+                    ' -- the proof that results no longer checks although the step was applied without error', '%s:%d' % (METHOD, lp.lineno))
+    return res
+
+
+def rule_a14(repo):
+    return stale_id_rule(repo, 'C13.A14')
+
 
 def rules(repo):
-    return [rule_a1(repo), rule_a2(repo), rule_a3(repo), rule_a4(repo), rule_a5(repo), rule_a6(repo), rule_a7(repo), rule_a8(repo), rule_a9(repo), rule_a10(repo), rule_a11(repo), rule_a12(repo), rule_a13(repo)]
+    return [rule_a1(repo), rule_a2(repo), rule_a3(repo), rule_a4(repo), rule_a5(repo), rule_a6(repo), rule_a7(repo), rule_a8(repo), rule_a9(repo), rule_a10(repo), rule_a11(repo), rule_a12(repo), rule_a13(repo), rule_a14(repo)]
